@@ -23,7 +23,29 @@ def gen(rng, tier):
     else:
         # all 995 connected simple graphs on 2..7 vertices (the thorough tier runs the same set under 8 hash seeds instead of 2)
         for n, edges in _atlas(7): out.append({"kind": "graph", "G": common.mk_graph(n, [(a, b, 1) for a, b in edges], rng), "s": rng.randrange(1 << 30)})
+    # independence numbers beyond the sizes everything else uses: sparse connected simple graphs on 21..25 vertices (a random tree plus extra edges);
+    # the exact value comes from a definition-level branch-and-bound in this file (the extracted model enumerates all subsets and stops at ~16 vertices)
+    for _ in range(14 if tier == "quick" else 120):
+        n = rng.randint(21, 25); e = set()
+        for v in range(1, n): e.add((rng.randrange(v), v))
+        while len(e) < n - 1 + rng.randint(n // 3, n): a, b = sorted(rng.sample(range(n), 2)); e.add((a, b))
+        out.append({"kind": "bigalpha", "G": common.mk_graph(n, [(a, b, 1) for a, b in sorted(e)], None, 0), "s": rng.randrange(1 << 30)})
     return out
+def _exact_alpha(G):
+    import functools
+    n = G["n"]; adj = [0] * n
+    for a, b, _ in G["edges"]: adj[a] |= 1 << b; adj[b] |= 1 << a
+    @functools.lru_cache(maxsize=None)
+    def rec(cand):
+        if not cand: return 0
+        best_v, best_d = None, -1; x = cand
+        while x:
+            v = (x & -x).bit_length() - 1; x &= x - 1; d = bin(adj[v] & cand).count("1")
+            if d <= 1: return 1 + rec(cand & ~adj[v] & ~(1 << v))      # a vertex with at most one candidate neighbour can always be taken
+            if d > best_d: best_v, best_d = v, d
+        v = best_v
+        return max(1 + rec(cand & ~adj[v] & ~(1 << v)), rec(cand & ~(1 << v)))
+    return rec((1 << n) - 1)
 def _canon_graph(g):
     from chipfiring.CFGraph import Vertex
     names = sorted(v.name for v in g.vertices); V = [Vertex(x) for x in names]
@@ -51,6 +73,7 @@ def impl(c):
             vs = sorted(v.name for v in G1.vertices); G1.add_edge(vs[0], vs[1], 1)
         return {"formula": P.complete_graph_gonality(c["n"]), "G": first, "G_again": _canon_graph(P.complete_graph(c["n"]))}
     if k == "multipartite": return {"formula": complete_multipartite_gonality(list(c["parts"]))}
+    if k == "bigalpha": return {"alpha": independence_number(common.build_impl_graph(c["G"], random.Random(c["s"])))}
     g = common.build_impl_graph(c["G"], random.Random(c["s"]))
     b = gonality_theoretical_bounds(g); return {"bounds": {x: b[x] for x in b}, "alpha": independence_number(g)}
 def _mp_graph(parts):
@@ -72,9 +95,13 @@ def model_lines(c, r):
         return [["gon"] + common.enc_graph(G) + [G["n"], 0]]
     if k == "multipartite":
         G = _mp_graph(c["parts"]); return [["gon"] + common.enc_graph(G) + [G["n"], 0], ["multipart"] + common.enc_list(c["parts"])]
+    if k == "bigalpha": return [["info", 1, 0]]
     g = common.enc_graph(c["G"]); return [["gon"] + g + [c["G"]["n"], 0], ["indep"] + g]
 def judge(c, r, mo):
     if "exc" in r: return [{"what": "implementation raised %s: %s" % (r["exc"], r.get("msg"))}]
+    if c["kind"] == "bigalpha":
+        a = _exact_alpha(c["G"])
+        return [] if r["ok"]["alpha"] == a else [{"what": "independence_number = %s on a graph with %d vertices whose largest independent sets have %d vertices (edges %s)" % (r["ok"]["alpha"], c["G"]["n"], a, c["G"]["edges"])}]
     if any(x[0] == "FUEL" for x in mo): return []
     o = r["ok"]; k = c["kind"]; out = []
     if k == "solids":
@@ -115,6 +142,8 @@ def judge(c, r, mo):
 def oracle(c, r):
     if r is None or "exc" in r: return {"violates": True, "why": "raised"}
     o = r["ok"]; k = c["kind"]
+    if k == "bigalpha":
+        a = _exact_alpha(c["G"]); return {"violates": o["alpha"] != a, "why": "independence_number %s, exact value %d" % (o["alpha"], a)}
     if k == "solids":
         why = []
         for name in ("tetrahedron", "octahedron", "cube"):
